@@ -4,7 +4,13 @@ mapping is read from the evidence files of the last quick run, so it is what act
 import json, glob, os
 ROOT = os.path.dirname(os.path.dirname(os.path.abspath(__file__)))
 DESC = {
- "abandon": "XC: a library-level call polled k times and dropped with the target mailbox empty/saturated (kinds CS, CSP, DS, DSW, DST, PUB, PUBS, PULL, ACK, DT); the follow-up must match the model with the call completed OR never received; mon_abandon reads half-created, partial fan-out, wedged, deleted-but-listed, consumers not released",
+ "mailstress": 'multi-thread stress: four lanes, per round a fresh subscription, six tasks holding its handle call it in a closed loop while it is deleted; a watchdog reports a caller without an answer 15 s after the deletion returned (C07-pending)',
+ "backed-up-stream": 'a StreamingPull handler held at the hand-over of a batch (XS/XQ, client stopped reading) next to a blocked Pull / a read stream / two Pulls: a later Publish must reach the consumer that waits (mon_backed_up)',
+ "push-delete": 'the real push loop in the middle of a page of 30..60 messages towards an endpoint that does not answer (hang / slow / reset), DeleteSubscription over gRPC after 1..10 POSTs (LOOPDEL): at most the POST on the wire arrives afterwards (mon_push_delete)',
+ "ordering-keys": 'Publish requests whose messages carry ordering keys in non-sorted order (PUBK): the i-th returned id belongs to the i-th message of the request and first delivery follows request order (mon_request_order)',
+ "delete-both": 'DeleteTopic and DeleteSubscription of one of its subscriptions in flight together, a stream and a blocked Pull on the subscription: after both answered the subscription is gone, not listed, its consumers released (mon_delete_both)',
+ "publish-vs-delete-topic": 'a Publish racing the DeleteTopic of its topic (both orders, 0..9 scheduler yields between them) and a later Publish through the stale handle: no message id is ever issued twice (mon_ids_unique)',
+ "abandon": "XC: a library-level call polled k times and dropped with the target mailbox empty/saturated (kinds CS, CSP, DS, DSW, DST, PUB, PUBS, PULL, ACK, ACKN, DT); the follow-up must match the model with the call completed OR never received; mon_abandon reads half-created, partial fan-out, wedged, deleted-but-listed, consumers not released",
  "big-ack": "one Acknowledge naming 1001..3000 deliveries of several Pull batches, then a drain",
  "big-chain": "two blocked Pulls and one Publish of 65535..131077 messages (model-free, mon_wait)",
  "burst": "random bursts of background calls around DeleteSubscription/DeleteTopic, all must complete (mon_no_hang)",
